@@ -115,9 +115,16 @@ pub fn run_pool(check_id: &str, tier: Tier, units: Vec<Value>, jobs: usize) -> U
                     None => {
                         let status = child.wait().ok();
                         let mut r = UnitResult::default();
-                        r.machinery_errors.push(format!(
-                            "worker died without a result on unit {unit} (status {status:?}, ok={ok})"
-                        ));
+                        if let Some(key) = unit.get("on_death").and_then(|k| k.as_str()) {
+                            // this unit feeds hostile input to the subject under a memory cap:
+                            // the process dying is the subject aborting, i.e. a verdict
+                            r.violation(key, format!("the process running unit {unit} died (status {status:?}): the subject aborted"), serde_json::json!({"unit": unit}));
+                            r.evaluations += 1;
+                        } else {
+                            r.machinery_errors.push(format!(
+                                "worker died without a result on unit {unit} (status {status:?}, ok={ok})"
+                            ));
+                        }
                         total.lock().unwrap().merge(r);
                         respawn = true;
                     }
